@@ -38,11 +38,13 @@ Modelling decisions
 namespace PV.UThread
 open PV.Generated.UThread
 
-abbrev Tid := Nat   -- threads; 0 = the initial thread (not created by the library)
-abbrev Hid := Nat   -- PUThread blocks, in allocation order
-abbrev Kid := Nat   -- PUThreadKey wrappers; 0 = the library's own `pp_uthread_specific_data`
-abbrev NKid := Nat  -- native keys (`pthread_key_t` + its heap block), in creation order
-abbrev Val := Nat   -- TLS values, 0 = NULL
+/-! All identifiers are natural numbers (plain `Nat`, so that `omega` sees every comparison); the
+variable names tell the sort:
+* `t`, `a` — threads; 0 = the initial thread (not created by the library)
+* `h` — PUThread blocks, in allocation order
+* `k` — PUThreadKey wrappers; 0 = the library's own `pp_uthread_specific_data`
+* `n` — native keys (`pthread_key_t` + its heap block), in creation order
+* `v` — TLS values, 0 = NULL -/
 
 inductive Phase
   | absent      -- no such thread (yet)
@@ -55,9 +57,9 @@ inductive Phase
 structure Thread where
   phase : Phase := .absent
   /-- `some h`: created by `p_uthread_create*` with handle `h`; `none`: foreign thread -/
-  handle : Option Hid := none
+  handle : Option Nat := none
   /-- inside `pp_uthread_get_tls_key` between `pthread_key_create` and the compare-and-exchange -/
-  pend : Option (Kid × NKid) := none
+  pend : Option (Nat × Nat) := none
   /-- ghost: the argument of the `p_uthread_exit` call that ended the function, `none` for a plain return -/
   exitArg : Option Int := none
 
@@ -70,7 +72,7 @@ structure Handle where
   named : Bool := false
   freed : Bool := false
   /-- native thread (`hdl`) of an `ours` handle / the thread a lazily made handle belongs to -/
-  thread : Tid := 0
+  thread : Nat := 0
   /-- `pthread_join` already performed on `hdl` -/
   joined : Bool := false
   /-- ghost: the creator's field writes are complete (the pointer has been returned to a caller) -/
@@ -83,18 +85,18 @@ structure Handle where
 structure Key where
   notifier : Bool := false          -- `free_func != NULL`
   wrapperFreed : Bool := false
-  published : Option NKid := none   -- `key->key`
-  losers : List NKid := []          -- ghost: native keys that lost the publication race
+  published : Option Nat := none   -- `key->key`
+  losers : List Nat := []          -- ghost: native keys that lost the publication race
 
 structure NKey where
-  owner : Kid := 0
+  owner : Nat := 0
   dtor : Bool := false              -- destructor registered at `pthread_key_create`
   live : Bool := false              -- not `pthread_key_delete`d
   blockFreed : Bool := false        -- the `p_malloc0 (sizeof (pthread_key_t))` block was `p_free`d
 
 structure Creating where
-  by_ : Tid
-  h : Hid
+  by_ : Nat
+  h : Nat
   joinable : Bool
   named : Bool
 
@@ -103,20 +105,20 @@ structure State where
   nH : Nat := 0
   nK : Nat := 1
   nN : Nat := 0
-  thr : Tid → Thread := fun t => if t = 0 then { phase := .running } else {}
-  hdl : Hid → Handle := fun _ => {}
-  key : Kid → Key := fun k => if k = 0 then { notifier := true } else {}
-  nkey : NKid → NKey := fun _ => {}
-  tls : Tid → NKid → Val := fun _ _ => 0
+  thr : Nat → Thread := fun t => if t = 0 then { phase := .running } else {}
+  hdl : Nat → Handle := fun _ => {}
+  key : Nat → Key := fun k => if k = 0 then { notifier := true } else {}
+  nkey : Nat → NKey := fun _ => {}
+  tls : Nat → Nat → Nat := fun _ _ => 0
   /-- holder of `pp_uthread_new_spin` (only `p_uthread_create_full` holds it for longer than a step) -/
   spin : Option Creating := none
   /-- notifier calls `(thread, key, value)` in order (key 0 = `pp_uthread_cleanup`) -/
-  dtorLog : List (Tid × Kid × Val) := []
+  dtorLog : List (Nat × Nat × Nat) := []
   /-- `p_free` of PUThread blocks, in order -/
-  freeLog : List Hid := []
-  joinLog : List (Tid × Hid × Int) := []
-  getLog : List (Tid × Kid × Val) := []
-  curLog : List (Tid × Hid) := []
+  freeLog : List Nat := []
+  joinLog : List (Nat × Nat × Int) := []
+  getLog : List (Nat × Nat × Nat) := []
+  curLog : List (Nat × Nat) := []
 
 /-- state after `p_libsys_init`: the initial thread runs, the library key wrapper exists (its native
     key does not: it is created lazily like every other) -/
@@ -124,51 +126,51 @@ def init : State := {}
 
 inductive Err
   | notEnabled                    -- the event cannot happen here (blocked call, unknown id, thread not running)
-  | useAfterFree (h : Hid)        -- the step reads or writes a freed PUThread block
-  | keyUseAfterFree (k : Kid)     -- the step reads a freed PUThreadKey wrapper
+  | useAfterFree (h : Nat)        -- the step reads or writes a freed PUThread block
+  | keyUseAfterFree (k : Nat)     -- the step reads a freed PUThreadKey wrapper
   | ub (what : String)            -- undefined behaviour of the native layer
   deriving DecidableEq, Repr
 
 inductive Ev
   | spawn                                           -- environment: a thread not created by the library appears
-  | createBegin (a : Tid) (joinable named : Bool)
-  | createEnd (a : Tid)
-  | start (t : Tid)
-  | exit (t : Tid) (code : Int)
-  | ret (t : Tid)
-  | threadEnd (t : Tid)
-  | ref (a : Tid) (h : Hid)
-  | unref (a : Tid) (h : Hid)
-  | join (a : Tid) (h : Hid)
-  | current (t : Tid)
-  | localNew (a : Tid) (notifier : Bool)
-  | localFree (a : Tid) (k : Kid)
-  | keyCreate (t : Tid) (k : Kid)
-  | keyCas (t : Tid) (k : Kid)
-  | setLocal (t : Tid) (k : Kid) (v : Val)
-  | replaceLocal (t : Tid) (k : Kid) (v : Val)
-  | getLocal (t : Tid) (k : Kid)
+  | createBegin (a : Nat) (joinable named : Bool)
+  | createEnd (a : Nat)
+  | start (t : Nat)
+  | exit (t : Nat) (code : Int)
+  | ret (t : Nat)
+  | threadEnd (t : Nat)
+  | ref (a : Nat) (h : Nat)
+  | unref (a : Nat) (h : Nat)
+  | join (a : Nat) (h : Nat)
+  | current (t : Nat)
+  | localNew (a : Nat) (notifier : Bool)
+  | localFree (a : Nat) (k : Nat)
+  | keyCreate (t : Nat) (k : Nat)
+  | keyCas (t : Nat) (k : Nat)
+  | setLocal (t : Nat) (k : Nat) (v : Nat)
+  | replaceLocal (t : Nat) (k : Nat) (v : Nat)
+  | getLocal (t : Nat) (k : Nat)
   deriving DecidableEq, Repr
 
 def upd {α : Type} (f : Nat → α) (i : Nat) (x : α) : Nat → α := fun j => if j = i then x else f j
-def upd2 (f : Nat → Nat → Val) (t n : Nat) (v : Val) : Nat → Nat → Val :=
+def upd2 (f : Nat → Nat → Nat) (t n : Nat) (v : Nat) : Nat → Nat → Nat :=
   fun t' n' => if t' = t ∧ n' = n then v else f t' n'
 
 /-- the thread is inside its function and not in the middle of a library call -/
-def canAct (s : State) (a : Tid) : Prop := (s.thr a).phase = .running ∧ (s.thr a).pend = none
-instance (s : State) (a : Tid) : Decidable (canAct s a) := by unfold canAct; exact inferInstance
+def canAct (s : State) (a : Nat) : Prop := (s.thr a).phase = .running ∧ (s.thr a).pend = none
+instance (s : State) (a : Nat) : Decidable (canAct s a) := by unfold canAct; exact inferInstance
 
 /-- outstanding references of a handle (ghost view) -/
 def holders (x : Handle) : Nat := x.userRefs + (if x.threadRef then 1 else 0)
 
 /-- the value thread `t` sees under key `k` (NULL while the key has no native key) -/
-def valueOf (s : State) (t : Tid) (k : Kid) : Val :=
+def valueOf (s : State) (t : Nat) (k : Nat) : Nat :=
   match (s.key k).published with
   | some n => s.tls t n
   | none => 0
 
 /-- resolve a PUThreadKey on the fast path of `pp_uthread_get_tls_key` -/
-def resolve (s : State) (k : Kid) : Except Err NKid :=
+def resolve (s : State) (k : Nat) : Except Err Nat :=
   if (s.key k).wrapperFreed then .error (.keyUseAfterFree k)
   else match (s.key k).published with
     | some n => .ok n
@@ -179,7 +181,7 @@ def resolve (s : State) (k : Kid) : Except Err NKid :=
 /-- `p_uthread_create_full` up to and including `pthread_create` inside `p_uthread_create_internal`:
     `p_spinlock_lock`; `p_malloc0 (sizeof (PUThread))` (so `ref_count = 0`, `ours = FALSE`, `ret_code = 0`);
     `ret->base.joinable = joinable`; native thread created (it runs the proxy). -/
-def createBegin (s : State) (a : Tid) (j n : Bool) : Except Err State :=
+def createBegin (s : State) (a : Nat) (j n : Bool) : Except Err State :=
   if ¬ canAct s a then .error .notEnabled else
   match s.spin with
   | some _ => .error .notEnabled
@@ -192,7 +194,7 @@ def createBegin (s : State) (a : Tid) (j n : Bool) : Except Err State :=
 
 /-- the rest of the critical section: `ref_count = 2; ours = TRUE; joinable; func; data; name = p_strdup (name)`;
     `p_spinlock_unlock`; the pointer is returned. -/
-def createEnd (s : State) (a : Tid) : Except Err State :=
+def createEnd (s : State) (a : Nat) : Except Err State :=
   match s.spin with
   | none => .error .notEnabled
   | some c =>
@@ -209,7 +211,7 @@ def spawn (s : State) : Except Err State :=
 
 /-- `pp_uthread_proxy`: `p_uthread_set_local (pp_uthread_specific_data, data)`; `p_spinlock_lock`;
     `p_spinlock_unlock`; reads `name`, `func`, `data` of the handle; calls the thread function. -/
-def start (s : State) (t : Tid) : Except Err State :=
+def start (s : State) (t : Nat) : Except Err State :=
   if (s.thr t).phase ≠ .created ∨ (s.thr t).pend ≠ none then .error .notEnabled else
   match (s.thr t).handle with
   | none => .error .notEnabled
@@ -229,14 +231,14 @@ def start (s : State) (t : Tid) : Except Err State :=
 
 /-- `p_uthread_current` after the key has been resolved: the stored handle, or a fresh
     `p_malloc0 (sizeof (PUThreadBase))` with `ref_count = 1` stored in the slot -/
-def currentCore (s : State) (t : Tid) (n : NKid) : State × Hid :=
+def currentCore (s : State) (t : Nat) (n : Nat) : State × Nat :=
   if s.tls t n ≠ 0 then (s, s.tls t n - 1) else
   ({ s with
       nH := s.nH + 1
       hdl := upd s.hdl s.nH { refCount := currentInitRefCount, thread := t, written := true, threadRef := true }
       tls := upd2 s.tls t n (s.nH + 1) }, s.nH)
 
-def current (s : State) (t : Tid) : Except Err State :=
+def current (s : State) (t : Nat) : Except Err State :=
   if ¬ canAct s t then .error .notEnabled else
   match resolve s 0 with
   | .error e => .error e
@@ -246,7 +248,7 @@ def current (s : State) (t : Tid) : Except Err State :=
 
 /-- `p_uthread_exit (code)`: `p_uthread_current ()`; `ours == FALSE` → warning, returns;
     else `ret_code = code; pthread_exit` -/
-def exit (s : State) (t : Tid) (code : Int) : Except Err State :=
+def exit (s : State) (t : Nat) (code : Int) : Except Err State :=
   if ¬ canAct s t then .error .notEnabled else
   match resolve s 0 with
   | .error e => .error e
@@ -262,7 +264,7 @@ def exit (s : State) (t : Tid) (code : Int) : Except Err State :=
 
 /-- the thread function returns (the proxy returns NULL); `ret_code` is not written.
     The initial thread returning from `main` is process exit, not a thread end. -/
-def ret (s : State) (t : Tid) : Except Err State :=
+def ret (s : State) (t : Nat) : Except Err State :=
   if ¬ canAct s t ∨ t = 0 then .error .notEnabled else
   .ok { s with thr := upd s.thr t { s.thr t with phase := .finished } }
 
@@ -271,7 +273,7 @@ def ret (s : State) (t : Tid) : Except Err State :=
 /-- `p_uthread_unref` on a known handle: `p_atomic_int_dec_and_test`; on TRUE `p_free (name)` and
     `p_uthread_free_internal` / `p_free` of the block.  `own`: the caller is the library key's
     destructor (ghost: which reference disappears). -/
-def unrefCore (s : State) (h : Hid) (own : Bool) : Except Err State :=
+def unrefCore (s : State) (h : Nat) (own : Bool) : Except Err State :=
   if (s.hdl h).freed then .error (.useAfterFree h) else
   let x := s.hdl h
   let x' : Handle := { x with
@@ -284,18 +286,18 @@ def unrefCore (s : State) (h : Hid) (own : Bool) : Except Err State :=
     .ok { s with hdl := upd s.hdl h x' }
 
 /-- `p_uthread_ref`: `p_atomic_int_inc (&ref_count)` -/
-def ref (s : State) (a : Tid) (h : Hid) : Except Err State :=
+def ref (s : State) (a : Nat) (h : Nat) : Except Err State :=
   if ¬ canAct s a ∨ ¬ h < s.nH ∨ (s.hdl h).written = false then .error .notEnabled else
   if (s.hdl h).freed then .error (.useAfterFree h) else
   .ok { s with hdl := upd s.hdl h { s.hdl h with
           refCount := (s.hdl h).refCount + refIncrement, userRefs := (s.hdl h).userRefs + 1 } }
 
-def unref (s : State) (a : Tid) (h : Hid) : Except Err State :=
+def unref (s : State) (a : Nat) (h : Nat) : Except Err State :=
   if ¬ canAct s a ∨ ¬ h < s.nH ∨ (s.hdl h).written = false then .error .notEnabled else
   unrefCore s h false
 
 /-- `p_uthread_join`: `joinable == FALSE` → −1; `pthread_join (hdl)`; `ret_code` -/
-def join (s : State) (a : Tid) (h : Hid) : Except Err State :=
+def join (s : State) (a : Nat) (h : Nat) : Except Err State :=
   if ¬ canAct s a ∨ ¬ h < s.nH ∨ (s.hdl h).written = false then .error .notEnabled else
   if (s.hdl h).freed then .error (.useAfterFree h) else
   if (s.hdl h).joinable = false then .ok { s with joinLog := s.joinLog ++ [(a, h, -1)] } else
@@ -310,7 +312,7 @@ def join (s : State) (a : Tid) (h : Hid) : Except Err State :=
 /-- one native key at thread termination (POSIX): live key, destructor registered, value non-NULL →
     the value is set to NULL and the destructor runs on the old value.  The library key's destructor
     is `pp_uthread_cleanup` = `p_uthread_unref (value)`; a user key's is the notifier. -/
-def dtorOne (t : Tid) (s : State) (n : NKid) : Except Err State :=
+def dtorOne (t : Nat) (s : State) (n : Nat) : Except Err State :=
   if (s.nkey n).live = true ∧ (s.nkey n).dtor = true ∧ s.tls t n ≠ 0 then
     let s1 := { s with
       tls := upd2 s.tls t n 0
@@ -318,14 +320,14 @@ def dtorOne (t : Tid) (s : State) (n : NKid) : Except Err State :=
     if (s.nkey n).owner = 0 then unrefCore s1 (s.tls t n - 1) true else .ok s1
   else .ok s
 
-def runDtors (t : Tid) : State → List NKid → Except Err State
+def runDtors (t : Nat) : State → List Nat → Except Err State
   | s, [] => .ok s
   | s, n :: r =>
     match dtorOne t s n with
     | .error e => .error e
     | .ok s' => runDtors t s' r
 
-def threadEnd (s : State) (t : Tid) : Except Err State :=
+def threadEnd (s : State) (t : Nat) : Except Err State :=
   if (s.thr t).phase ≠ .finished then .error .notEnabled else
   match runDtors t s (List.range s.nN) with
   | .error e => .error e
@@ -334,12 +336,12 @@ def threadEnd (s : State) (t : Tid) : Except Err State :=
 /-! ## TLS keys -/
 
 /-- `p_uthread_local_new` -/
-def localNew (s : State) (a : Tid) (notif : Bool) : Except Err State :=
+def localNew (s : State) (a : Nat) (notif : Bool) : Except Err State :=
   if ¬ canAct s a then .error .notEnabled else
   .ok { s with nK := s.nK + 1, key := upd s.key s.nK { notifier := notif } }
 
 /-- `p_uthread_local_free`: `p_free (key)` — the wrapper only -/
-def localFree (s : State) (a : Tid) (k : Kid) : Except Err State :=
+def localFree (s : State) (a : Nat) (k : Nat) : Except Err State :=
   if ¬ canAct s a ∨ k = 0 ∨ ¬ k < s.nK then .error .notEnabled else
   if (s.key k).wrapperFreed then .error (.keyUseAfterFree k) else
   .ok { s with key := upd s.key k { s.key k with wrapperFreed := true } }
@@ -347,7 +349,7 @@ def localFree (s : State) (a : Tid) (k : Kid) : Except Err State :=
 /-- slow path of `pp_uthread_get_tls_key`, first atomic step: `p_atomic_pointer_get` saw NULL;
     `p_malloc0 (sizeof (pthread_key_t))`; `pthread_key_create (thread_key, key->free_func)`.
     A thread still in its proxy can only be inside `p_uthread_set_local (library key)`. -/
-def keyCreate (s : State) (t : Tid) (k : Kid) : Except Err State :=
+def keyCreate (s : State) (t : Nat) (k : Nat) : Except Err State :=
   if ¬ (((s.thr t).phase = .running ∨ ((s.thr t).phase = .created ∧ k = 0)) ∧ (s.thr t).pend = none ∧ k < s.nK)
   then .error .notEnabled else
   if (s.key k).wrapperFreed then .error (.keyUseAfterFree k) else
@@ -362,7 +364,7 @@ def keyCreate (s : State) (t : Tid) (k : Kid) : Except Err State :=
 /-- second atomic step: `p_atomic_pointer_compare_and_exchange (&key->key, NULL, thread_key)`.
     Winner: published.  Loser: `pthread_key_delete (*thread_key)`; `p_free (thread_key)`;
     `thread_key = key->key`. -/
-def keyCas (s : State) (t : Tid) (k : Kid) : Except Err State :=
+def keyCas (s : State) (t : Nat) (k : Nat) : Except Err State :=
   match (s.thr t).pend with
   | none => .error .notEnabled
   | some (k', n) =>
@@ -382,11 +384,11 @@ def keyCas (s : State) (t : Tid) (k : Kid) : Except Err State :=
 
 /-- the notifier call both `set_local`/`replace_local` shapes may contain:
     `if (old_value != NULL && key->free_func != NULL) key->free_func (old_value)` -/
-def notifyOld (s : State) (t : Tid) (k : Kid) (n : NKid) (enabled : Bool) : List (Tid × Kid × Val) :=
+def notifyOld (s : State) (t : Nat) (k : Nat) (n : Nat) (enabled : Bool) : List (Nat × Nat × Nat) :=
   if enabled = true ∧ s.tls t n ≠ 0 ∧ (s.key k).notifier = true then [(t, k, s.tls t n)] else []
 
 /-- `p_uthread_set_local` (user keys): `pthread_setspecific` -/
-def setLocal (s : State) (t : Tid) (k : Kid) (v : Val) : Except Err State :=
+def setLocal (s : State) (t : Nat) (k : Nat) (v : Nat) : Except Err State :=
   if ¬ canAct s t ∨ k = 0 ∨ ¬ k < s.nK then .error .notEnabled else
   match resolve s k with
   | .error e => .error e
@@ -396,7 +398,7 @@ def setLocal (s : State) (t : Tid) (k : Kid) (v : Val) : Except Err State :=
       tls := upd2 s.tls t n v }
 
 /-- `p_uthread_replace_local`: notifier on the old non-NULL value, then `pthread_setspecific` -/
-def replaceLocal (s : State) (t : Tid) (k : Kid) (v : Val) : Except Err State :=
+def replaceLocal (s : State) (t : Nat) (k : Nat) (v : Nat) : Except Err State :=
   if ¬ canAct s t ∨ k = 0 ∨ ¬ k < s.nK then .error .notEnabled else
   match resolve s k with
   | .error e => .error e
@@ -406,7 +408,7 @@ def replaceLocal (s : State) (t : Tid) (k : Kid) (v : Val) : Except Err State :=
       tls := upd2 s.tls t n v }
 
 /-- `p_uthread_get_local` -/
-def getLocal (s : State) (t : Tid) (k : Kid) : Except Err State :=
+def getLocal (s : State) (t : Nat) (k : Nat) : Except Err State :=
   if ¬ canAct s t ∨ k = 0 ∨ ¬ k < s.nK then .error .notEnabled else
   match resolve s k with
   | .error e => .error e
